@@ -48,6 +48,9 @@ type header struct {
 	ChangeCounter uint32
 	// Updated when any table definition changes
 	SchemaCookie uint32
+	// Schema formats before 4 store every index in ascending order: DESC in
+	// an index or primary key definition is ignored.
+	IgnoreDesc bool
 }
 
 type objectCache struct {
@@ -188,7 +191,10 @@ func parseHeader(b []byte) (header, error) {
 	case 1:
 		// Version 1 ignores 'DESC' on indexes.
 		return h, ErrIncompatible
-	case 2, 3, 4:
+	case 2, 3:
+		// like version 1 these ignore 'DESC', but we can deal with that.
+		h.IgnoreDesc = true
+	case 4:
 	default:
 		return h, ErrIncompatible
 	}
@@ -476,7 +482,11 @@ func (db *Database) Schema(table string) (*Schema, error) {
 	if err != nil {
 		return nil, err
 	}
-	return newSchema(table, m)
+	st, err := newSchema(table, m)
+	if err == nil && db.header != nil && db.header.IgnoreDesc {
+		st.ignoreDesc()
+	}
+	return st, err
 }
 
 // Info gives some debugging info about the open database
